@@ -152,7 +152,8 @@ def main(argv=None):
 
     replay_paths = []
     seen_mech = set()
-    rdir = os.path.join(VERIF_DIR, "replays", pid)
+    out_dir = os.environ.get("VERIF_OUT") or VERIF_DIR  # VERIF_OUT: evaluation of seeded changes writes elsewhere; evidence in /verif always describes /repo
+    rdir = os.path.join(out_dir, "replays", pid)
     os.makedirs(rdir, exist_ok=True)
     for fn in os.listdir(rdir):  # replays belong to one run
         try:
@@ -162,7 +163,7 @@ def main(argv=None):
     for v in unlisted:
         blob = json.dumps({"property": pid, "tier": tier, "seed": seed, **{k: v[k] for k in v if k != "t"}}, sort_keys=True, default=str)
         h = hashlib.sha1(blob.encode()).hexdigest()[:16]
-        path = os.path.join(VERIF_DIR, "replays", pid, h + ".json")
+        path = os.path.join(out_dir, "replays", pid, h + ".json")
         mkey = json.dumps(v.get("mech", {}), sort_keys=True, default=str)
         if len(replay_paths) < 200:
             with open(path, "w") as f:
@@ -204,8 +205,8 @@ def main(argv=None):
         "wall_s": round(time.time() - t0, 2),
         "violations": len(unlisted),
     }
-    os.makedirs(os.path.join(VERIF_DIR, "evidence"), exist_ok=True)
-    with open(os.path.join(VERIF_DIR, "evidence", f"{pid}.json"), "w") as f:
+    os.makedirs(os.path.join(out_dir, "evidence"), exist_ok=True)
+    with open(os.path.join(out_dir, "evidence", f"{pid}.json"), "w") as f:
         json.dump(evidence, f, indent=1, default=str)
         f.write("\n")
 
